@@ -5,7 +5,8 @@ import RV.Base.SetList
 
   What is kept of the code (DESIGN §5.1, §6 C01):
   * three indexes `spo`, `pos`, `osp`, each abstracted to the finite set of triples it holds
-    (the nested-dict shape `spo[s][p][o]` is not modelled) but *updated separately* exactly
+    (the nested-dict shape `spo[s][p][o]` is modelled in `NModel.lean`, round g, and proved to refine this
+    model: `nested_refines_quadset`) but *updated separately* exactly
     where the code updates them, and read by the pattern dispatch of `Memory.triples`
     (which index for which of the 8 shapes, the two fast paths);
   * the per-triple context dictionary `__tripleContexts` with the default-context
